@@ -175,7 +175,16 @@ def run(tier, seed):
     for v in vs:
         g = gen.ConfGen(rng, version=v)
         lib = g.lib
-        for mt in rng.sample(g.structures(), min(len(g.structures()), per)):
+        picked = rng.sample(g.structures(), min(len(g.structures()), per))
+        # structures holding a group whose content model is tagged 'choice' are always represented (the validator treats them like sequences)
+        def has_choice(ref, depth=0):
+            if not (gen.is_seq(ref) and len(ref) >= 2 and gen.is_seq(ref[1])) or depth > 4:
+                return False
+            return any(gen.is_seq(r) and len(r) == 4 and r[3] == 'GRP' and gen.is_seq(r[1]) and len(r[1]) >= 1 and (r[1][0] == 'choice' or has_choice(r[1], depth + 1))
+                       for r in ref[1])
+        withchoice = [m_ for m_ in g.structures() if has_choice(lib.MESSAGES[m_])]
+        picked = sorted(set(picked) | set(rng.sample(withchoice, min(len(withchoice), 3))))
+        for mt in picked:
             names0, anchored, dup = struct_info(lib, lib.MESSAGES[mt])
             for style in ('required', 'all'):
                 try:
@@ -190,6 +199,34 @@ def run(tier, seed):
                 if req:
                     s = rng.choice(req)
                     cases.append((v, mt, 'remove-required', '\r'.join(l for l in lines if l[:3] != s), 'missing:%s.%s' % (mt, s), dup))
+                # remove one required, non-leading segment of a group (the group is still opened by its first member)
+                pos = [0]
+                cands = []
+
+                def walk(nodes, rows, gname):
+                    byname = {r[0]: r for r in rows if gen.is_seq(r) and len(r) == 4}
+                    for idx, nd in enumerate(nodes):
+                        if nd[0] == 'S':
+                            r = byname.get(nd[1])
+                            if gname and r is not None and r[2][0] >= 1 and idx > 0 and [x[1] for x in nodes].count(nd[1]) == 1:
+                                cands.append((pos[0], gname, nd[1]))
+                            pos[0] += 1
+                        else:
+                            r = byname.get(nd[1])
+                            sub = r[1][1] if r is not None and gen.is_seq(r[1]) and len(r[1]) >= 2 and gen.is_seq(r[1][1]) else []
+                            walk(nd[2], sub, nd[1])
+                try:
+                    walk(der, lib.MESSAGES[mt][1], None)
+                except Exception:  # noqa
+                    cands = []
+                if cands and pos[0] == len(lines):
+                    k, gname, sname = rng.choice(cands)
+                    if lines[k][:3] == sname:
+                        # the exact name is predictable only where the group finder rebuilds the prescribed tree (anchored groups, unique names: cf. finding D16);
+                        # elsewhere the defect must still be reported as a missing child somewhere
+                        exact = anchored and len(names0) == len(set(names0))
+                        cases.append((v, mt, 'remove-required-in-group', '\r'.join(lines[:k] + lines[k + 1:]),
+                                      ('missing:%s.%s' % (gname, sname)) if exact else 'missing:', dup))
                 # duplicate one max-1 top-level segment
                 one = [r[0] for r in top if r[3] == 'SEG' and r[2][1] == 1 and r[0] != 'MSH' and names.count(r[0]) == 1 and r[0] in names]
                 if one:
